@@ -14,6 +14,8 @@ from sa.selftest import Mutant, Silent
 from sa.source import AnalysisError, base_names, class_assigns, methods, mro_lookup
 
 PROPERTY = "C30"
+INCLUDE = [("C16", ("intn",), "BinaryBoxProtocol is an Int16StringReceiver: the length-prefixed framing clauses of C16 are necessary for "
+            "'parsing it back, with the byte stream split arbitrarily'")]
 AMP = "protocols/amp.py"
 BASIC = "protocols/basic.py"
 QA = "twisted.protocols.amp"
